@@ -134,6 +134,9 @@ pub struct Case {
     /// bit 0 / bit 1: write the first / second quantity without a blank between amount and unit (`5m`, `250g`)
     #[serde(default)]
     pub glue: u8,
+    /// 1 / 2: the first / second quantity is ALSO held in a name bound on an earlier line (same value expected)
+    #[serde(default)]
+    pub via: u8,
 }
 
 pub const CONN: [&str; 4] = ["to", "in", "into", "as"];
@@ -302,7 +305,7 @@ impl Prop for Units {
                 nt = true;
                 // transitivity on the real code: U1->U2->U3 equals U1->U3
                 if acc.ok() {
-                    let direct = Case { shape: Shape::Convert(a.clone(), u1.clone(), 0, u3.clone()), seps: c.seps, glue: 0 };
+                    let direct = Case { shape: Shape::Convert(a.clone(), u1.clone(), 0, u3.clone()), seps: c.seps, glue: 0, via: 0 };
                     let dl = case_line(&direct).render(dec, thou);
                     match (w.eval1(&cfg, "en", &dl), &slot) {
                         (Ok(Slot::Ok { v: V::Unit(d, ..), .. }), Slot::Ok { v: V::Unit(x, ..), .. }) => {
@@ -345,7 +348,31 @@ impl Prop for Units {
                 nt = true;
             }
         }
-        let mut v = acc.finish(rendered).nt(nt).class_if(c.seps != 0, "non-default-separators");
+        // metamorphic: a quantity held in a name bound on an earlier line is the quantity
+        let mut via_checked = false;
+        if acc.ok() && c.via != 0 && matches!(slot, Slot::Ok { .. }) {
+            let whole = case_line(c);
+            let range = match (&c.shape, c.via) {
+                (Shape::NameMap(_), _) => None,
+                (_, 1) => Some((0, 2)),
+                (Shape::AddSub(..), _) | (Shape::Ratio(..), _) => Some((3, 5)),
+                _ => Some((0, 2)),
+            };
+            if let Some((from, to)) = range {
+                let text2 = whole.via_variable(from, to, if c.via == 1 { "load" } else { "net weight" }, dec, thou);
+                match w.eval(&cfg, "en", &text2) {
+                    Ok(o) if o.slots.len() == 2 => {
+                        via_checked = true;
+                        if !o.slots[1].same(&slot) {
+                            acc.fail(format!("{:?} gives {} but with the quantity held in a name ({:?}) it gives {}", line, slot.brief(), text2, o.slots[1].brief()));
+                        }
+                    }
+                    Ok(o) => acc.fail(format!("{} slots for the two lines {:?}", o.slots.len(), text2)),
+                    Err(p) => acc.fail(format!("{:?}: panic at {}: {}", text2, p.site, p.message)),
+                }
+            }
+        }
+        let mut v = acc.finish(rendered).nt(nt).class_if(c.seps != 0, "non-default-separators").class_if(via_checked, "quantity-also-via-a-variable");
         for cl in classes {
             v = v.class(cl);
         }
@@ -446,7 +473,7 @@ pub fn shape_strategy() -> impl Strategy<Value = Shape> {
 }
 
 pub fn case_strategy() -> impl Strategy<Value = Case> {
-    (shape_strategy(), prop_oneof![2 => Just(0usize), 2 => 1usize..4], prop_oneof![3 => Just(0u8), 1 => 1u8..4]).prop_map(|(shape, seps, glue)| Case { shape, seps, glue })
+    (shape_strategy(), prop_oneof![2 => Just(0usize), 2 => 1usize..4], prop_oneof![3 => Just(0u8), 1 => 1u8..4], prop_oneof![3 => Just(0u8), 1 => 1u8..3]).prop_map(|(shape, seps, glue, via)| Case { shape, seps, glue, via })
 }
 
 /// all ordered pairs of units x amounts x separator conventions (+ the name map)
@@ -458,13 +485,13 @@ pub fn pair_table(amounts: &[f64], seps: &[usize]) -> Vec<Case> {
         let ui = &vocab().units[i];
         for sn in 0..ui.parse_names.len() {
             let name = ((sn as u64 * (1u64 << 32)) / ui.parse_names.len() as u64 + 1) as u32;
-            out.push(Case { shape: Shape::NameMap(U { unit: i, name }), seps: 0, glue: 0 });
+            out.push(Case { shape: Shape::NameMap(U { unit: i, name }), seps: 0, glue: 0, via: 0 });
         }
         for j in 0..n {
             for a in amounts {
                 for s in seps {
                     k = k.wrapping_add(0x3333_3333);
-                    out.push(Case { shape: Shape::Convert(NumLit::new(*a), U { unit: i, name: k }, (k >> 30) as u8, U { unit: j, name: k.rotate_left(7) }), seps: *s, glue: ((k >> 11) & 1) as u8 });
+                    out.push(Case { shape: Shape::Convert(NumLit::new(*a), U { unit: i, name: k }, (k >> 30) as u8, U { unit: j, name: k.rotate_left(7) }), seps: *s, glue: ((k >> 11) & 1) as u8, via: 0 });
                 }
             }
         }
@@ -473,7 +500,7 @@ pub fn pair_table(amounts: &[f64], seps: &[usize]) -> Vec<Case> {
 }
 
 pub fn run(ctx: &Ctx) {
-    ctx.rule("ALL ordered pairs of the 33 configured units (within and across the metric/imperial families, and across kinds) enumerated x amounts x separator conventions, every configured spelling (69 names) checked against a by-name definition table; generated: a U1 to|in|into|as U2, chains U1->U2->U3 (incl. back to U1), a U1 +- b U2, a U1 * n, a U1 / n, a U1 / b U2, amounts +-[1e-6, 1e12] with fractions and thousands groups, 4 separator conventions; a conversion applied to a sum: 'a U1 +- b U2 to U3', also with b U2 held in a name bound on an earlier line (expected: the SUM converted); oracle: hard-coded SI table in the harness (never read from config.json): same kind -> amount*f(U1)/f(U2) in unit U2 (family + index read from the AST), different kinds -> the result is not a quantity of another kind; relations on the real code: linearity conv(3a)=3conv(a), transitivity U1->U2->U3 = U1->U3, inverse U1->U2->U1 = a; non-trivial = U1 != U2 (or a different-kind pair, arithmetic between different units)");
+    ctx.rule("ALL ordered pairs of the 33 configured units (within and across the metric/imperial families, and across kinds) enumerated x amounts x separator conventions, every configured spelling (69 names) checked against a by-name definition table; generated: a U1 to|in|into|as U2, chains U1->U2->U3 (incl. back to U1), a U1 +- b U2, a U1 * n, a U1 / n, a U1 / b U2, amounts +-[1e-6, 1e12] with fractions and thousands groups, 4 separator conventions; a conversion applied to a sum: 'a U1 +- b U2 to U3', also with b U2 held in a name bound on an earlier line (expected: the SUM converted); metamorphic step (a quarter of the cases): the first or second quantity also held in a name bound on an earlier line; oracle: hard-coded SI table in the harness (never read from config.json): same kind -> amount*f(U1)/f(U2) in unit U2 (family + index read from the AST), different kinds -> the result is not a quantity of another kind; relations on the real code: linearity conv(3a)=3conv(a), transitivity U1->U2->U3 = U1->U3, inverse U1->U2->U1 = a; non-trivial = U1 != U2 (or a different-kind pair, arithmetic between different units)");
     ctx.assume("target unit names are written exactly as configured (the target lookup is case-sensitive); tolerance 1e-9 relative (the library multiplies step by step along the chain)");
     match ctx.tier {
         crate::engine::Tier::Quick => ctx.run_table(&Units, "all-unit-pairs", pair_table(&[1.0, 2.5], &[0]), true),
